@@ -24,6 +24,9 @@ class IterView:
 
 def view_of(interp, it) -> IterView:
     from .interp import Closure
+    from .sym import SymProto
+    if isinstance(it, SymProto):
+        return it._vf("vf_view")(interp)
     if isinstance(it, SList):
         return IterView(it.length, lambda ip, k, L=it: models.slist_get(ip, L, k, check=False))
     if isinstance(it, FList):
@@ -223,6 +226,8 @@ def exec_for(interp, s: ast.For, env):
     idx_name = spec.index
     # establishment
     env.set(idx_name, 0)
+    if spec.ghost_init is not None:
+        spec.ghost_init(interp, env)
     for j, (clause, props) in enumerate(spec.invariants):
         interp.prove(interp.spec_eval(clause, env), f"{lname}/establish[{j}]", props, detail=clause, hints=interp.ctx.hints_for(interp, env))
     mods = assigned_names(s.body) | set(spec.modifies)
@@ -247,6 +252,7 @@ def exec_for(interp, s: ast.For, env):
         env.set(idx_name, wrap_term(z3.simplify(k + 1)))
         for j, (clause, props) in enumerate(spec.invariants):
             interp.prove(interp.spec_eval(clause, env), f"{lname}/preserve[{j}]", props, detail=clause, hints=interp.ctx.hints_for(interp, env))
+        interp.cover(f"{lname}/end-of-body")
         raise PathEnd("loop body checked")
     else:
         interp.assume(n >= 0)
@@ -271,6 +277,19 @@ def comprehension(interp, e, env, kind):
     gens = e.generators
     if any(g.is_async for g in gens):
         raise Unsupported("async comprehension")
+    # single generator with a filter over an unbounded symbolic collection, under a loop contract: the comprehension is
+    # executed as the loop it abbreviates ( _comp = []; for tgt in it: if cond: _comp.append(elt) ) and cut at the invariant
+    if kind == "list" and len(gens) == 1 and gens[0].ifs and not isinstance(e, ast.DictComp) and env.func is not None:
+        t = ast.unparse(gens[0].target)
+        if t.startswith("(") and t.endswith(")"):
+            t = t[1:-1]
+        spec = interp.ctx.loop_specs.get((env.func.__qualname__, t))
+        if spec is not None:
+            it = interp.eval(gens[0].iter, env)
+            view = view_of(interp, it)
+            if view.concrete is None and not z3.is_int_value(z3.simplify(view.length)):
+                return _filter_comp_as_loop(interp, e, env, it, spec)
+            return _comp_rec(interp, e, env, kind, 0, pre_items=view.concrete if view.concrete is not None else concrete_items(interp, it))
     # single generator over an unbounded symbolic list without filter -> functional list
     if kind == "list" and len(gens) == 1 and not gens[0].ifs and not isinstance(e, ast.DictComp):
         it = interp.eval(gens[0].iter, env)
@@ -306,6 +325,26 @@ def comprehension(interp, e, env, kind):
         items0 = view.concrete if view.concrete is not None else concrete_items(interp, it)
         return _comp_rec(interp, e, env, kind, 0, pre_items=items0)
     return _comp_rec(interp, e, env, kind, 0)
+
+
+def _filter_comp_as_loop(interp, e, env, it, spec):
+    from .interp import Env
+    from .context import parse_type
+    g = e.generators[0]
+    ts = spec.types.get("_comp")
+    if not ts:
+        raise Unsupported("loop contract of a filter comprehension must declare the type of `_comp`")
+    sub = Env(parent=env, globals=env.globals, func=env.func)
+    sub.self_arg = env.self_arg
+    sub.set("_comp_iter", it)
+    sub.set("_comp", interp.ctx.to_slist(interp, [], parse_type(ts)))
+    test = g.ifs[0] if len(g.ifs) == 1 else ast.BoolOp(op=ast.And(), values=list(g.ifs))
+    app = ast.Expr(ast.Call(func=ast.Attribute(value=ast.Name("_comp", ast.Load()), attr="append", ctx=ast.Load()), args=[e.elt], keywords=[]))
+    loop = ast.For(target=g.target, iter=ast.Name("_comp_iter", ast.Load()), body=[ast.If(test=test, body=[app], orelse=[])], orelse=[])
+    ast.copy_location(loop, e)
+    ast.fix_missing_locations(loop)
+    interp.exec_block([loop], sub)
+    return sub.lookup("_comp")
 
 
 def _comp_rec(interp, e, env, kind, gi, pre_items=None):
